@@ -115,7 +115,7 @@ impl Serializable for MasterPublicKey {
     fn read(de: &mut Deserializer) -> Result<Self, Self::Error> {
         let tpk = de.read::<TracingPublicKey>()?;
         let n_coordinates = <usize>::try_from(de.read_leb128_u64()?)?;
-        let mut coordinate_keys = HashMap::with_capacity(n_coordinates);
+        let mut coordinate_keys = HashMap::new();
         for _ in 0..n_coordinates {
             let coordinate = de.read::<Right>()?;
             let pk = de.read::<RightPublicKey>()?;
@@ -174,7 +174,7 @@ impl Serializable for TracingSecretKey {
         }
 
         let n_users = <usize>::try_from(de.read_leb128_u64()?)?;
-        let mut users = HashSet::with_capacity(n_users);
+        let mut users = HashSet::new();
         for _ in 0..n_users {
             let id = de.read()?;
             users.insert(id);
@@ -223,7 +223,7 @@ impl Serializable for MasterSecretKey {
     fn read(de: &mut Deserializer) -> Result<Self, Self::Error> {
         let tsk = de.read::<TracingSecretKey>()?;
         let n_coordinates = <usize>::try_from(de.read_leb128_u64()?)?;
-        let mut coordinate_keypairs = RevisionMap::with_capacity(n_coordinates);
+        let mut coordinate_keypairs = RevisionMap::new();
         for _ in 0..n_coordinates {
             let coordinate = de.read()?;
             let n_keys = <usize>::try_from(de.read_leb128_u64()?)?;
@@ -371,14 +371,14 @@ impl Serializable for UserSecretKey {
 
         let n_ps = usize::try_from(de.read_leb128_u64()?)?;
 
-        let mut ps = Vec::with_capacity(n_ps);
+        let mut ps = Vec::new();
         for _ in 0..n_ps {
             let p = de.read()?;
             ps.push(p);
         }
 
         let n_coordinates = <usize>::try_from(de.read_leb128_u64()?)?;
-        let mut coordinate_keys = RevisionVec::with_capacity(n_coordinates);
+        let mut coordinate_keys = RevisionVec::new();
         for _ in 0..n_coordinates {
             let coordinate = de.read()?;
             let n_keys = <usize>::try_from(de.read_leb128_u64()?)?;
@@ -492,7 +492,7 @@ impl Serializable for XEnc {
     fn read(de: &mut Deserializer) -> Result<Self, Self::Error> {
         let tag = de.read_array::<TAG_LENGTH>()?;
         let n_traps = <usize>::try_from(de.read_leb128_u64()?)?;
-        let mut traps = Vec::with_capacity(n_traps);
+        let mut traps = Vec::new();
         for _ in 0..n_traps {
             let trap = de.read()?;
             traps.push(trap);
